@@ -100,7 +100,68 @@ def lru_model(cap, accesses):
     return revisited, maxopen
 
 
+def build_two_append(r, tier):
+    """Two statements appending to one file. Each has its own handler and buffer; with little output both flush once, at
+    end of stream, and O_APPEND puts the two blocks one after the other, in either order."""
+    n = r.choice([1, 2, 5, 12])
+    recs = [[("k", "k1"), ("id", str(i + 1)), ("v", r.choice(gen.VOCAB_A)), ("w", str(r.randint(0, 999)))] for i in range(n)]
+    ofmt = r.choice(["dkvp", "jsonl", "nidx"])
+    second = r.choice(["print >> \"both.out\", \"L\" . $id", "emit >> \"both.out\", {\"id\": $id}", "printn >> \"both.out\", $id . \";\""])
+    first = r.choice(["tee >> \"both.out\", $*", "emit >> \"both.out\", mapexcept($*, \"w\")"])
+    two_verbs = r.chance(0.3)
+    verbs = [["put", "-q", first + "; " + second]] if not two_verbs else [["put", first], ["put", "-q", second]]
+    return {"kind": "two_append", "lru": 256, "ifmt": "dkvp", "ofmt": ofmt, "pattern": "two", "recs": recs, "cseed": r.randint(1, 1 << 40), "batch": r.choice([None, 1, 2]),
+            "nconf": 4 if tier == "quick" else 8, "pre": {"both.out": "PRE-EXISTING LINE\n"} if r.chance(0.6) else {}, "verbs": verbs, "first": first, "second": second,
+            "args_tail": OFMT[ofmt]}
+
+
+def eval_two_append(case, chk):
+    vd = Verdict()
+    pool = chk.pool
+    text = render(case["ifmt"], case["recs"])
+    files = {"input.dat": text.encode()}
+    for k, v in case["pre"].items():
+        files[k] = v.encode()
+    blocks = []
+    for stmt in (case["first"], case["second"]):
+        plain = stmt.replace(">> \"both.out\", ", "").replace(">> \"both.out\",", "")
+        if plain.startswith("tee "):
+            plain = "emit mapsum($*, {})"
+        r = pool.run1(mkspec(["mlr"] + case["args_tail"] + ["put", "-q", plain, "input.dat"], mode="staged", files={"input.dat": text.encode()}))
+        vd.runs.append(r)
+        if r.status != "exit" or r.code != 0:
+            vd.skipped = "expected-unavailable"
+            return vd
+        blocks.append(r.stdout)
+    pre = case["pre"].get("both.out", "").encode()
+    ok = {pre + blocks[0] + blocks[1], pre + blocks[1] + blocks[0]}
+    args = main_args(case)
+    if case.get("configs") is None:
+        rng = Rng(case["cseed"], "cfg")
+        case["configs"] = [{"sched": random_sched(rng, None), "batch": rng.choice([case["batch"], 1, None]), "rtseed": rng.randint(1, 1 << 30), "knobs": {"lru": 256}}
+                           for _ in range(case["nconf"])]
+    for cfg in case["configs"]:
+        r = pool.run1(mkspec(with_batch(args, cfg.get("batch")), sched=cfg["sched"], files=files, knobs=cfg["knobs"], rtseed=cfg.get("rtseed", 1), snapshot=True))
+        vd.runs.append(r)
+        cfgs = json.loads(json.dumps(cfg))
+        if r.status != "exit":
+            vd.add("hang" if r.status in ("deadlock", "livelock") else r.status, status=r.status, config=cfgs, blocked=r.blocked[:10], text=r.panic_text[-500:])
+            break
+        if r.code != 0:
+            vd.add("fails", config=cfgs, code=r.code, stderr=r.stderr[:300].decode("utf-8", "replace"))
+            break
+        got = r.files.get("both.out", (None, 0))[0]
+        if got not in ok:
+            vd.add("target-content-wrong", config=cfgs, target="both.out", two_appenders=True, got_len=len(got) if got is not None else None,
+                   want_len=len(pre) + len(blocks[0]) + len(blocks[1]), got=(got or b"")[:300].decode("utf-8", "replace"))
+            break
+    vd.notes["two_appenders_cases"] = 1
+    return vd
+
+
 def build_case(r, tier):
+    if r.chance(0.05):
+        return build_two_append(r, tier)
     cap = r.choice([2, 3, 5, 8, 256])
     if cap == 256:
         ntargets = r.choice([1, 2, 5, 12])
@@ -294,6 +355,8 @@ def tolerant_records(ofmt, data):
 
 
 def evaluate(case, chk):
+    if case["kind"] == "two_append":
+        return eval_two_append(case, chk)
     vd = Verdict()
     pool = chk.pool
     text = render(case["ifmt"], case["recs"])
@@ -431,6 +494,8 @@ def cases(rng, tier):
 
 
 def sample_of(case, verdict):
+    if case["kind"] == "two_append":
+        return {"kind": "two_append", "args": main_args(case), "records": len(case["recs"]), "pre_existing": sorted(case["pre"])}
     tm, acc = target_map(case)
     return {"kind": case["kind"], "args": main_args(case), "lru": case["lru"], "targets": len(tm), "records": len(case["recs"]),
             "pattern": case["pattern"], "access_head": acc[:16], "pre_existing": sorted(case["pre"]),
